@@ -195,6 +195,10 @@ class Gen(object):
             return None          # needs a documented keyword: function skipped
         if t.startswith("int") and "float" not in t:
             return self.number(pname, integer=True)
+        if "angle" in t and ("float" in t or "int" in t):
+            # documented as a number or an Angle: the representation is chosen by the caller (see b_api: every parameter is
+            # exercised in each documented representation, alone and against the others)
+            return Multi(self.angle(pname)(), "int" in t)
         if "float" in t or "int" in t:
             v = self.number(pname)
             return float(v) if "float" in t and not isinstance(v, float) and "int" not in t else v
@@ -203,6 +207,42 @@ class Gen(object):
         if default is not inspect.Parameter.empty:
             return default
         return None
+
+
+class Multi(object):
+    """a value documented as 'int, float or Angle'"""
+
+    def __init__(self, v, int_ok):
+        self.v, self.int_ok = v, int_ok
+
+    def as_(self, kind):
+        from pymeeus.Angle import Angle
+        if kind == "angle":
+            return Angle(self.v)
+        if kind == "int" and self.int_ok:
+            return int(self.v)
+        return float(self.v)
+
+
+def representations(args):
+    """lists of kinds for the Multi arguments: all float, all Angle, each one alone as Angle / float / int against the others"""
+    idx = [i for i, a in enumerate(args) if isinstance(a, Multi)]
+    if not idx:
+        return [None]
+    pats = [{i: "float" for i in idx}, {i: "angle" for i in idx}]
+    if len(idx) > 1:
+        for i in idx:
+            pats.append({j: ("angle" if j == i else "float") for j in idx})
+            pats.append({j: ("float" if j == i else "angle") for j in idx})
+            if args[i].int_ok:
+                pats.append({j: ("int" if j == i else "angle") for j in idx})
+    elif args[idx[0]].int_ok:
+        pats.append({idx[0]: "int"})
+    return pats
+
+
+def materialise(args, pat):
+    return [a.as_(pat[i]) if isinstance(a, Multi) else a for i, a in enumerate(args)]
 
 
 SKIP = {"Epoch.Epoch.utc2local", "Epoch.Epoch.rise_set", "base.machine_accuracy"}
@@ -261,45 +301,49 @@ def b_api(rng, tier):
                         break
                 except Exception:
                     break
-                call_args = [recv] + args
-            else:
-                call_args = args
             generated += 1 if rep == 0 else 0
-            mutator = is_method and f.__name__ in ALLOWED_SELF_WRITERS
-            before = [snapshot(a) for a in call_args]
-            exc = None
-            import signal
+            pats = representations(args)
+            if rep > 0 and len(pats) > 1:
+                pats = [rng.choice(pats)]
+            for pi, pat in enumerate(pats):
+              concrete = materialise(args, pat) if pat else args
+              call_args = ([recv] + concrete) if is_method else concrete
+              for _once in (0,):
+                  mutator = is_method and f.__name__ in ALLOWED_SELF_WRITERS
+                  before = [snapshot(a) for a in call_args]
+                  exc = None
+                  import signal
 
-            def _alarm(signum, frame):
-                raise TimeoutError("call did not return within 10 s")
-            old = signal.signal(signal.SIGALRM, _alarm)
-            signal.alarm(10)
-            try:
-                r1 = f(*call_args)
-            except Exception as e:
-                exc = e
-                r1 = None
-            finally:
-                signal.alarm(0)
-                signal.signal(signal.SIGALRM, old)
-            after = [snapshot(a) for a in call_args]
-            start = 1 if mutator else 0
-            problems = []
-            if before[start:] != after[start:]:
-                problems.append("argument changed by the call")
-            if exc is not None and not isinstance(exc, (ValueError, ZeroDivisionError)):
-                problems.append("well-typed arguments raised %s: %s" % (type(exc).__name__, exc))
-            if exc is None and not mutator:
-                try:
-                    r2 = f(*call_args)
-                    if snapshot(r1) != snapshot(r2):
-                        problems.append("second call with equal arguments gave a different result")
-                except Exception as e:
-                    problems.append("second call raised %s" % type(e).__name__)
-                bad_num = [x for x in _numbers(r1) if isinstance(x, float) and (x != x or abs(x) == float("inf"))]
-                if bad_num:
-                    problems.append("non-finite value in the result")
-            yield ((qual, rep), not problems, "; ".join(problems), rep == 0)
+                  def _alarm(signum, frame):
+                      raise TimeoutError("call did not return within 10 s")
+                  old = signal.signal(signal.SIGALRM, _alarm)
+                  signal.alarm(10)
+                  try:
+                      r1 = f(*call_args)
+                  except Exception as e:
+                      exc = e
+                      r1 = None
+                  finally:
+                      signal.alarm(0)
+                      signal.signal(signal.SIGALRM, old)
+                  after = [snapshot(a) for a in call_args]
+                  start = 1 if mutator else 0
+                  problems = []
+                  if before[start:] != after[start:]:
+                      problems.append("argument changed by the call")
+                  if exc is not None and not isinstance(exc, (ValueError, ZeroDivisionError)):
+                      problems.append("well-typed arguments raised %s: %s" % (type(exc).__name__, exc))
+                  if exc is None and not mutator:
+                      try:
+                          r2 = f(*call_args)
+                          if snapshot(r1) != snapshot(r2):
+                              problems.append("second call with equal arguments gave a different result")
+                      except Exception as e:
+                          problems.append("second call raised %s" % type(e).__name__)
+                      bad_num = [x for x in _numbers(r1) if isinstance(x, float) and (x != x or abs(x) == float("inf"))]
+                      if bad_num:
+                          problems.append("non-finite value in the result")
+                  yield ((qual, rep, pi), not problems, "; ".join(problems), rep == 0 and pi == 0)
         # ill-typed arguments: one parameter at a time
         if ok_gen and generated:
             base_params = params[1:] if is_method else params
